@@ -72,3 +72,59 @@ Definition ok_C15 (c : case15) (o : obs15) : bool :=
         (if c_cohere c && o_hasfile o && hasbit (o_flags o) 1 && negb (hasbit (o_flags o) 32) && negb (o_coh1 o =? 2)
          then (o_coh1 o =? 1) && (o_coh2 o =? 1) else true)
   end.
+
+(* ------------------------------------------------------------------ Xen build *)
+(* MmapRegion::from_range(MmapRange{size, file?, prot?, flags?, addr, mmap_flags, mmap_data}) then
+   optionally GuestRegionMmap::new(region, base).  cx_ioctl: does the (emulated) hypervisor
+   interface accept requests. *)
+Record case15x := {
+  cx_mode : mode; cx_size : N; cx_file : option (N * N); cx_prot : option N; cx_flags : option N;
+  cx_addr : N; cx_mflags : N; cx_mdata : N; cx_base : option N; cx_page : N; cx_ioctl : bool }.
+(* device events: 1 gref count index (map) | 2 index count (unmap) | 3 count ok (privcmd batch) *)
+Record obs15x := {
+  ox_probe : N; ox_res : N; ox_size : N; ox_prot : N; ox_flags : N; ox_hasfile : bool; ox_start : N;
+  ox_samefd : bool; ox_xflags : N; ox_xdata : N; ox_ptrnull : bool; ox_pos : N; ox_d1 : N; ox_d2 : N;
+  ox_evs : list N; ox_live : N }.
+
+(* mapping types: 0 plain unix, 1 foreign, 2 grant, 0xA grant mapped on demand; every other word is
+   unknown (bits outside 0xB) or contradictory (foreign+grant, on-demand without grant) *)
+Definition xen_type_ok (w : N) : bool := mem w [0; 1; 2; 10].
+
+Definition reasons_x (c : case15x) : list N :=
+  (match cx_flags c with Some f => if hasbit f 16 then [3] else [] | None => [] end) ++
+  (if xen_type_ok (cx_mflags c) then
+     if cx_mflags c =? 0 then
+       match cx_file c with
+       | Some (flen, start) =>
+           if W64 <=? start + cx_size c then [1] else if flen <? start + cx_size c then [4] else []
+       | None => [] end
+     else
+       match cx_file c with
+       | None => [7]                                           (* missing backing file *)
+       | Some (_, start) => if start =? 0 then [] else [1; 7]  (* non-zero file offset *)
+       end
+   else [9]) ++
+  match cx_base c with
+  | Some b => if W64 <=? b + cx_size c then [6] else []
+  | None => [] end.
+
+Definition ok_C15x (c : case15x) (o : obs15x) : bool :=
+  let rs := reasons_x c in
+  let uses_ioctl := (cx_mflags c =? 1) || (cx_mflags c =? 2) in
+  let os_refuses := (ox_probe o =? 0) || (uses_ioctl && negb (cx_ioctl c)) in
+  match rs with
+  | _ :: _ =>
+      negb (ox_res o =? 0) && (mem (ox_res o) rs || (os_refuses && (ox_res o =? 5))) && (ox_d2 o =? 0)
+      && (ox_live o =? 0)     (* nothing left behind: no memory mapping and no grant mapping in the device *)
+  | [] =>
+      if os_refuses then (ox_res o =? 5) && (ox_d2 o =? 0) && (ox_live o =? 0)
+      else
+        (ox_res o =? 0) && (ox_size o =? cx_size c) &&
+        (match cx_prot c with Some p => ox_prot o =? p | None => true end) &&
+        (match cx_flags c with Some f => ox_flags o =? f | None => true end) &&
+        match cx_file c with
+        | Some (_, start) => ox_hasfile o && (ox_start o =? start) && ox_samefd o
+        | None => negb (ox_hasfile o) end &&
+        (ox_xflags o =? cx_mflags c) && (ox_xdata o =? cx_mdata c) &&
+        (ox_d2 o =? 0) && (ox_live o =? 0)      (* dropping the region releases everything *)
+  end.
